@@ -79,8 +79,8 @@ class AnyRef(Spec):
 
 class Arr(Spec):
   """array of concrete rank with symbolic dims; value term tracked"""
-  def __init__(self, rank, kind='f', owner=None, dims=None, positive_dims=True, tag=None):
-    self.rank, self.kind, self.owner, self.dims, self.positive_dims, self.tag = rank, kind, owner, dims, positive_dims, tag
+  def __init__(self, rank, kind='f', owner=None, dims=None, positive_dims=True, tag=None, tt=None):
+    self.rank, self.kind, self.owner, self.dims, self.positive_dims, self.tag, self.tt = rank, kind, owner, dims, positive_dims, tag, tt
 
   def make(self, name, p, ex):
     dims = []
@@ -93,7 +93,7 @@ class Arr(Spec):
       dims.append(d)
       p.assume(d >= (1 if self.positive_dims else 0))
     owner = self.owner if self.owner is not None else frozenset({('param', name)})
-    st = ArrState(z3.Const(name, T), Shape(self.rank, dims), self.kind, owner, tag=self.tag)
+    st = ArrState(z3.Const(name, T), Shape(self.rank, dims), self.kind, owner, tag=self.tag, tt=self.tt)
     return p.new_loc(st)
 
 
@@ -200,6 +200,10 @@ class ArrView:
   @property
   def vf(self):
     return self.st.vf
+
+  @property
+  def tt(self):
+    return self.st.tt or 'inv'
 
   @property
   def owner(self):
@@ -354,6 +358,12 @@ class Contract:
       if c is not None and c is not True:
         p.assume(c)
     p.events.append(('call', self.target, dict(env), res))
+    # translation typing of the result (C19): a contract-specific rule, else the conservative default
+    from . import ttype as TT
+    if getattr(self, 'tt_rule', None) is not None:
+      self.tt_rule(env, p, res)
+    else:
+      TT.default_result(p, res, [v for k, v in env.items() if k != 'self'])
     out.append((p, res))
     return out
 
